@@ -60,6 +60,19 @@ Theorem C44_model_packs_ok : forall ps n ops s, run ps (init n) (ops ++ [OFlush]
   forallb (pack_ok ps) (queued s) = true.
 Proof. exact model_packs_ok. Qed.
 
+(* the oracle accepts exactly what the theorems give: for the model's own session output (distinct ids, one
+   blob type) every oracle clause holds and the model comparison succeeds *)
+Theorem C44_model_meets_oracle : forall ps n tree ops s,
+  run ps (init n) (ops ++ [OFlush]) = Some s ->
+  NoDup (map pb_id (accepted ops)) -> (forall b, In b (accepted ops) -> pb_tree b = tree) ->
+  check_case (CP ps n tree (ops ++ [OFlush]) (slots s) (queued s) true) = 0%nat.
+Proof. exact model_meets_oracle. Qed.
+Theorem C44_exactly_once_complete : forall acc packs,
+  Permutation (concat packs) acc -> NoDup (map pb_id acc) -> exactly_once acc packs = true.
+Proof. exact exactly_once_complete. Qed.
+
+Print Assumptions C44_model_meets_oracle.
+Print Assumptions C44_exactly_once_complete.
 Print Assumptions C44_session_exactly_once.
 Print Assumptions C44_run_invariant.
 Print Assumptions C44_session_indexed_once.
